@@ -219,68 +219,72 @@ def r3_column_cursor(ctx):
     ctx.check(ok, f.qual + "#rows", "one entry per row of custom_data" if ok else f"iterates {norm(rows.iter)}", where=f, node=rows.iter)
     inner = [l for l in loops_in(rows) if l is not rows and isinstance(l, ast.For) and enclosing_loop(l) is rows]
     if len(inner) != 1:
-        raise AnalysisError("_custom_parameters: step loop not recognised")
-    steps = inner[0]
-    ok = dotted(expand(f, steps.iter)) == "self.enabled_steps" and isinstance(steps.target, ast.Name)
-    ctx.check(ok, f.qual + "#steps", "columns consumed by the enabled steps in declaration order" if ok else f"step loop iterates {norm(steps.iter)}", where=f, node=steps.iter)
-    sv = steps.target.id
-    augs = [n for n in walk_ordered(steps) if isinstance(n, ast.AugAssign) and isinstance(n.op, ast.Add) and isinstance(n.target, ast.Name)]
-    cursors = {a.target.id for a in augs}
-    if len(cursors) != 1:
-        ctx.fail(f.qual + "#cursor", f"expected one column cursor advanced inside the step loop, found {sorted(cursors)}", where=f, node=steps)
+        ctx.fail(f.qual + "#steps", f"expected one loop over the enabled steps per row, found {len(inner)}", where=f, node=rows)
         return
-    cur = cursors.pop()
-    inits = [st for st, val in local_defs(f, cur) if isinstance(val, ast.Constant)]
-    ok = len(inits) == 1 and inits[0].value.value == 0 and contains(rows, inits[0]) and not contains(steps, inits[0])
+    steps = inner[0]
+    it = expand(f, steps.iter)
+    sv = steps.target.id if isinstance(steps.target, ast.Name) else None
+    if isinstance(it, ast.Call) and call_name(it) == "enumerate" and it.args and isinstance(steps.target, ast.Tuple) and len(steps.target.elts) == 2 and isinstance(steps.target.elts[1], ast.Name):
+        it, sv = it.args[0], steps.target.elts[1].id  # a position counter next to the step does no harm by itself
+    ok = dotted(it) == "self.enabled_steps" and sv is not None
+    ctx.check(ok, f.qual + "#steps", "columns consumed by the enabled steps in declaration order" if ok else f"step loop iterates {norm(steps.iter)}", where=f, node=steps.iter)
+    if not ok:
+        return
+    # Decided per path through one step (sa/paths.py): the column cursor is the loop-carried local;
+    # on every path it ends at cursor + (number of placeholders of the step) and the row is read at
+    # [cursor] (one placeholder) or [cursor : cursor + width].
+    from sa.paths import enumerate_paths
+
+    paths = enumerate_paths(steps.body, containers=set())
+    live = [q for q in paths if q.exit == "fall"]
+    for q in paths:
+        if q.exit in ("continue", "break", "return"):
+            ctx.fail(f.qual + "#advance-once", f"{q.exit} inside the step loop leaves a step without consuming its columns", where=f, node=q.exit_node)
+    carried = {nm for q in live for nm, val in q.env.items() if nm.isidentifier() and nm in names_in(val)}
+    if len(carried) != 1:
+        ctx.fail(f.qual + "#cursor", f"expected one column cursor advanced inside the step loop, found {sorted(carried)} (a position counter of the steps is not a column offset: a vector parameter takes several columns)", where=f, node=steps)
+        return
+    cur = next(iter(carried))
+    inits = [st for st, val in local_defs(f, cur) if isinstance(val, ast.Constant) and not contains(steps, st)]
+    ok = len(inits) == 1 and inits[0].value.value == 0 and contains(rows, inits[0])
     ctx.check(ok, f.qual + "#reset", f"`{cur} = 0` for every row" if ok else f"column cursor `{cur}` is not reset to 0 for each row", where=f, node=inits[0] if inits else rows)
-    an = [n for a in augs for n in g.nodes_of(a)]
-    lo, hi = g.count_events_per_iteration(g.node_of(steps), an)
-    ok = (lo, hi) == (1, 1)
-    ctx.check(ok, f.qual + "#advance-once", "cursor advanced exactly once per step" if ok else f"cursor advanced between {lo} and {hi} times per step", where=f, node=augs[0], facts={"min": lo, "max": hi})
-    adv = augs[0].value
-    adv_ok = norm(adv) == f"len({sv}.values)"
-    ctx.check(adv_ok, f.qual + "#advance", f"advance = len({sv}.values)" if adv_ok else f"cursor advances by {norm(adv)} instead of the number of placeholders of the step", where=f, node=augs[0])
-    # reads
-    reads = [n for n in walk_ordered(steps) if isinstance(n, ast.Subscript) and isinstance(n.ctx, ast.Load) and dotted(n.value) in ("row",) or (isinstance(n, ast.Subscript) and isinstance(n.ctx, ast.Load) and "row" == (dotted(n.value) or ""))]
-    rowvar = None
-    for st, val in local_defs(f, "row"):
-        rowvar = "row"
+    rowvars = {nm for nm in ("row",)} | {st.targets[0].id for st in rows.body if isinstance(st, ast.Assign) and isinstance(st.targets[0], ast.Name) and "to_list" in norm(st.value)} | {st.target.id for st in rows.body if isinstance(st, ast.AnnAssign) and isinstance(st.target, ast.Name) and st.value is not None and "to_list" in norm(st.value)}
+    wlen = to_poly(ast.parse(f"len({sv}.values)", mode="eval").body)
     n_scalar = n_vec = 0
-    for rd in reads:
-        if isinstance(rd.slice, ast.Slice):
-            n_vec += 1
-            lo_e, hi_e = rd.slice.lower, rd.slice.upper
-            ok = lo_e is not None and dotted(lo_e) == cur and hi_e is not None and rd.slice.step is None
-            width = None
-            if ok:
-                width = to_poly(hi_e) - to_poly(lo_e)
-                syms = width.symbols()
-                ok = len(width.terms) == 1 and len(syms) == 1
-            why = f"reads row[{norm(rd.slice)}]"
-            if ok:
-                wsym = next(iter(syms))  # e.g. "<len(values_flattened)>"
-                same = wsym == f"<{norm(adv)}>"
-                wexp = norm(expand(f, ast.parse(wsym.strip("<>"), mode="eval").body))
-                derived = f"{sv}.values" in wexp
-                # an equality assertion between the slice length and the advance
-                st = enclosing_stmt(rd)
-                tgt = st.targets[0].id if isinstance(st, ast.Assign) and isinstance(st.targets[0], ast.Name) else (st.target.id if isinstance(st, ast.AnnAssign) and isinstance(st.target, ast.Name) else None)
-                asserted = False
-                for a in walk_ordered(steps):
-                    if isinstance(a, ast.Assert) and isinstance(a.test, ast.Compare) and isinstance(a.test.ops[0], ast.Eq):
-                        sides = {norm(a.test.left), norm(a.test.comparators[0])}
-                        if sides == {f"len({tgt})", norm(adv)}:
-                            asserted = True
-                ok = same or (derived and asserted)
-                why = "slice width equals the advance" if same else ("slice width derives from step.values and is asserted equal to the advance" if ok else f"slice width {wsym} is not tied to the cursor advance {norm(adv)}")
-            ctx.check(ok, f.qual + "#read-vector", why, where=f, node=rd)
-        else:
-            n_scalar += 1
-            ok = dotted(rd.slice) == cur
-            ts = enclosing_tests(rd, stop=steps)
-            one = any(pol and isinstance(t, ast.Compare) and isinstance(t.ops[0], ast.Eq) and norm(t.left) == f"{sv}.values" and isinstance(t.comparators[0], ast.Constant) and isinstance(t.comparators[0].value, str) and len(t.comparators[0].value) == 1 for t, pol in ts)
-            ctx.check(ok and one, f.qual + "#read-scalar", "scalar step reads row[i]; its width len('_') = 1 = the advance" if ok and one else f"scalar step reads row[{norm(rd.slice)}] / width not 1", where=f, node=rd)
-    if n_scalar + n_vec < 2:
+    for q in live:
+        scalar = q.holds(f"{sv}.values == '_'") is True
+        fin = q.env.get(cur)
+        adv = (to_poly(fin) - to_poly(ast.Name(id=cur, ctx=ast.Load()))) if fin is not None else None
+        okadv = adv is not None and (adv == wlen or (scalar and adv == to_poly(ast.Constant(value=1))))
+        tag = "scalar" if scalar else "vector"
+        ctx.check(okadv, f.qual + f"#advance:{tag}", f"cursor advances by the number of placeholders of the step ({tag})" if okadv else (f"cursor `{cur}` is not advanced for a {tag} step" if fin is None else f"cursor becomes {norm(fin)} instead of {cur} + len({sv}.values) for a {tag} step"), where=f, node=steps, facts={"path": [f"{t}={p_}" for t, p_ in q.cond_texts()]})
+        reads = []
+        for e_ in q.effects:
+            for sub_ in ast.walk(e_.value) if e_.value is not None else []:
+                if isinstance(sub_, ast.Subscript) and dotted(sub_.value) in rowvars:
+                    reads.append((sub_, e_.node))
+        if not reads:
+            ctx.fail(f.qual + f"#read-{tag}", f"a {tag} step stores nothing read from the row", where=f, node=steps)
+        for rd, node in reads:
+            if isinstance(rd.slice, ast.Slice):
+                n_vec += 1
+                lo_e, hi_e = rd.slice.lower, rd.slice.upper
+                okr = lo_e is not None and hi_e is not None and rd.slice.step is None and dotted(lo_e) == cur
+                why = f"reads row[{norm(rd.slice)}]"
+                if okr:
+                    width = to_poly(hi_e) - to_poly(lo_e)
+                    same = width == wlen
+                    # or: the width derives from step.values and the path asserts len(slice) == len(step.values)
+                    asserted = any(pol and norm(t) in (f"len({norm(rd)}) == len({sv}.values)", f"len({sv}.values) == len({norm(rd)})") for t, pol in q.conds)
+                    derived = f"{sv}.values" in norm(hi_e)
+                    okr = same or (derived and asserted)
+                    why = "slice width equals the advance" if same else ("slice width derives from step.values and is asserted equal to the advance" if okr else f"slice width {norm(hi_e)} - {norm(lo_e)} is not tied to the cursor advance len({sv}.values)")
+                ctx.check(okr, f.qual + "#read-vector", why, where=f, node=node)
+            else:
+                n_scalar += 1
+                okr = dotted(rd.slice) == cur and scalar
+                ctx.check(okr, f.qual + "#read-scalar", "scalar step reads row[cursor]; its width len('_') = 1 = the advance" if okr else f"{tag} step reads row[{norm(rd.slice)}]: not the column at the cursor / not a one-placeholder step", where=f, node=node)
+    if n_scalar < 1 or n_vec < 1:
         ctx.fail(f.qual + "#reads", "scalar and vector column reads not both found", where=f, node=steps)
     # build(): column count check
     b = ctx.func(f"{M}:CustomMode.build")
@@ -623,4 +627,11 @@ def r6_validation_first(ctx):
     # validate_steps itself: has + enabled + placeholder checks (detail in C08.R4)
 
 
-RULES = [r1_enabled_filter, r2_run_space, r3_column_cursor, r4_entry_wiring, r5_names_and_zips, r6_validation_first]
+def r7_dask_grid_labels(ctx):
+    """The dask path's parameter grid of product mode labels each entry with the values it holds (values and labels are one from_product index; shared with C07.R1)."""
+    from props.C07 import product_grid_labels
+
+    product_grid_labels(ctx)
+
+
+RULES = [r7_dask_grid_labels, r1_enabled_filter, r2_run_space, r3_column_cursor, r4_entry_wiring, r5_names_and_zips, r6_validation_first]
